@@ -74,15 +74,15 @@ theorem processKeys_spec (r : Acct) (got : List Acct) (asked : List Acct) : ∀ 
     · rw [h6]; simp
 
 section
-variable {accts : List Acct} {groups : List (Nat × List Acct)}
+variable {ex : Bool} {accts : List Acct} {groups : List (Nat × List Acct)}
 
 /-- the client drops a stanza that carries nothing and that no continuation waits for -/
 theorem pop_only {s : Sys} {a : Acct} {hd : Stanza} {rest : List Stanza} (hn : accts.Nodup)
-    (hT : TV accts groups s.submitted (view s)) (ha : a ∈ accts)
+    (hT : TV ex accts groups s.submitted (view s)) (ha : a ∈ accts)
     (hq : queueOf s.outbound a = hd :: rest)
     (hz : ∀ id r, downTok id hd = 0 ∧ retryDownTok id r hd = 0 ∧ rcptOut id r hd = 0 ∧ nOf id hd = 0)
     (hiq : ∀ e ∈ (getClient s a).iqReg, stanzaIq hd ≠ some e.1) :
-    TV accts groups s.submitted ((view s).popOut a rest) := by
+    TV ex accts groups s.submitted ((view s).popOut a rest) := by
   have hrs : RecipStep accts groups s.submitted (view s) a [hd] rest (getClient s a) [] (view s).nextCtr := {
     hx := ha
     hq := hq
